@@ -13,7 +13,7 @@ RULE = ("BFS over histories of append/prepend (1-3 fresh bytes or the other buff
 
 def run(ctx):
     b = builders(ctx)
-    n = 6 if ctx.tier == "quick" else 9
+    n = 6 if ctx.tier == "quick" else 16
     K.run_bfs_configs(ctx, [(b["buffer_h"](ctx), "Buffer maxsize=%d" % n, dict(maxsize=n, _big=True))])
     cov = K.mc_coverage(ctx, RULE, {"terminator_checks": ctx.counters.get("terminator_checks", 0),
                                    "states_with_attached_window_visits": ctx.counters.get("attached_states", 0)})
